@@ -713,6 +713,44 @@ func init() {
 		}
 	}
 	eng.Register(&eng.Scenario{
+		Name: "routine-deadroot-setroutine", Props: []string{"C14", "C05"}, ObsNames: stdObs, Manual: true,
+		Doc:   "RoutineContainer / StateRoutineContainer (choice) given a context while nothing is installed; the context is then cancelled by its owner from outside; only now a routine is installed (SetRoutine / SetState): nothing can run under the dead context; a following SetContext(fresh, restart=false) runs the routine - it has not failed, it has never run",
+		Quick: eng.Bounds{PB: 2}, Thorough: eng.Bounds{PB: 3},
+		Body: func() {
+			state := vsched.Choose(2) == 1
+			body := func(ctx context.Context) error { return instance(ctx, 1, iUntilCancelled, 0) }
+			root, cancelRoot := context.WithCancel(context.WithValue(context.Background(), ctxKey{}, 1))
+			defer cancelRoot()
+			var setContext func(ctx context.Context, restart bool) bool
+			var clear func() bool
+			var install func()
+			if state {
+				k := routine.NewStateRoutineContainer[int](nil, exitObs())
+				k.SetStateRoutine(func(ctx context.Context, st int) error { return body(ctx) })
+				setContext, clear = k.SetContext, k.ClearContext
+				install = func() { k.SetState(1) }
+			} else {
+				k := routine.NewRoutineContainer(exitObs())
+				setContext, clear = k.SetContext, k.ClearContext
+				install = func() { k.SetRoutine(body) }
+			}
+			setContext(root, false)
+			cancelRoot()
+			install()
+			vsched.Settle()
+			if live, _, _ := liveInstances(0); live != 0 {
+				fail("C05.live-without-reason", "%d instance(s) live although the only context the container was given has been cancelled", live)
+			}
+			setContext(context.WithValue(context.Background(), ctxKey{}, 2), false)
+			vsched.Settle()
+			if live, _, _ := liveInstances(0); live != 1 {
+				fail("C14.missing-run", "a routine installed under a root context that had been cancelled from outside was not run by the following SetContext(fresh, restart=false): %d live instance(s), %d entries in total", live, vsched.Ctr(rEntered))
+			}
+			clear()
+			vsched.Settle()
+		},
+	})
+	eng.Register(&eng.Scenario{
 		Name: "routine-extcancel-result", Props: []string{"C14"}, ObsNames: stdObs, Manual: true,
 		Doc:   "RoutineContainer / StateRoutineContainer, with or without retry back-off (choices): the root context is cancelled by its owner from outside while the instance is running; the instance then returns nil or an error of its own (choice): that result - not context.Canceled - is the exit status: each exit callback is told it once, and a following SetContext(fresh, restart=true) runs the routine again only if it had returned an error",
 		Quick: eng.Bounds{PB: 2}, Thorough: eng.Bounds{PB: 3},
